@@ -257,15 +257,18 @@ def handle_lease(E):
         E.prove('handle_lease:without_the_drain_loop_nothing_may_be_queued', rt0 == rh0)
 
 
-@harness('c14.initial_lease_grants_nothing', ['C14'], functions=[BASE + '._reset_internals', LEASE + 'DefinedLease.__init__'])
+@harness('c14.initial_lease_grants_nothing', ['C14', 'C17'], functions=[BASE + '._reset_internals', LEASE + 'DefinedLease.__init__'])
 def initial_lease(E):
     E.import_module('datetime')
     E.path.ghost['now'] = I(E.fresh_int('now'))
     honor = E.path.choice(2, 'honor') == 1
     sock = new_obj(E, 'rsocket/rsocket_client.py::RSocketClient', _honor_lease=honor, _request_queue_size=E.fresh_int('qs', 0))
+    stale = E.call(E.lookup(LEASE + 'DefinedLease'), [5])        # whatever lease the previous connection had left
+    sock.attrs['_requester_lease'] = stale
     E.call(E.getattr(sock, '_reset_internals'), [])
     E.cover('reset')
     lease = sock.attrs['_requester_lease']
+    E.prove('reset:the_lease_of_a_previous_connection_is_discarded', lease is not stale)
     if honor:
         E.prove('reset:initial_lease_is_defined_with_zero_grant',
                 lease.cls.name == 'DefinedLease' and lease.attrs['maximum_request_count'] == 0)
@@ -353,6 +356,22 @@ def _lease_history(k, qsize):
                 break
         E.cover('lease-arrived')
         E.prove('history:retained_requests_released_in_FIFO_order_up_to_the_grant_each_once', same(wire, accepted[:released]))
+        if released < len(accepted) and E.path.choice(2, 'a-second-LEASE-arrives') == 1:
+            # the backlog outlived the first lease: the next LEASE continues exactly where the first one stopped
+            n2 = E.fresh_int('granted2', 0, 0x7FFFFFFF)
+            lf2 = E.call(E.lookup(FR + 'LeaseFrame'), [])
+            E.setattr(lf2, 'number_of_requests', n2)
+            E.setattr(lf2, 'time_to_live', ttl)
+            E.await_value(E.call(E.getattr(sock, 'handle_lease'), [lf2]))
+            rest = len(accepted) - released
+            more = rest
+            for m in range(rest):
+                if E.decide(mk_bool(I(n2) == m), 'granted2=%d' % m):
+                    more = m
+                    break
+            E.prove('history:a_later_LEASE_continues_the_backlog_in_FIFO_order[nothing skipped, nothing re-ordered]',
+                    same(wire, accepted[:released + more]))
+            return
         # one more request under the same lease
         late = E.call(E.lookup(FR + 'RequestResponseFrame'), [])
         E.setattr(late, 'stream_id', 99)
